@@ -31,6 +31,14 @@ def mini_eval(node, env):
         t = norm(node)
         if t in env:
             return env[t]
+        # self.F inside a method of the overrider is the instance's field; a property is evaluated
+        if isinstance(node, ast.Attribute) and isinstance(node.value, ast.Name) and node.value.id in ("self", env.get("__inst__")):
+            k = "%s.%s" % (env.get("__inst__"), node.attr)
+            if k in env:
+                return env[k]
+            pm = env.get("__methods__", {}).get(node.attr)
+            if pm is not None and any(isinstance(d_, ast.Name) and d_.id == "property" for d_ in pm.decorator_list):
+                return _mini_call(pm, {}, env)
         raise KeyError(t)
     if isinstance(node, ast.Tuple) or isinstance(node, ast.List) or isinstance(node, ast.Set):
         return tuple(mini_eval(e, env) for e in node.elts)
@@ -55,6 +63,21 @@ def mini_eval(node, env):
             return args[0][args[1]]
         if f in ("int.__index__", "int", "operator.index") and len(args) == 1 and isinstance(args[0], int):
             return int(args[0])
+        if f in ("str", "repr") and len(args) == 1 and (args[0] is None or isinstance(args[0], (int, str, BaseException, tuple, list))):
+            return str(args[0]) if f == "str" else repr(args[0])
+        if f == "getattr" and len(args) == 3 and isinstance(args[1], str):
+            return getattr(args[0], args[1], args[2]) if isinstance(args[0], (type, BaseException)) else args[2]
+        meths = env.get("__methods__", {})
+        if isinstance(node.func, ast.Attribute) and isinstance(node.func.value, ast.Name) and node.func.attr in meths \
+                and node.func.value.id in (env.get("__inst__"), "self", env.get("__cls__")):
+            fn = meths[node.func.attr]
+            ps = [a.arg for a in fn.args.args]
+            static = any(isinstance(d_, ast.Name) and d_.id == "staticmethod" for d_ in fn.decorator_list)
+            if not static:
+                ps = ps[1:]
+            if len(ps) != len(args):
+                raise KeyError("call %s" % f)
+            return _mini_call(fn, dict(zip(ps, args)), env)
         fns = env.get("__fns__", {})
         if isinstance(node.func, ast.Name) and node.func.id in fns:
             fn = fns[node.func.id]
@@ -113,7 +136,8 @@ def _mini_call(fn, local, env, depth=0):
     """table evaluation of a small module-level helper (if / assign / return over the constructs of mini_eval) on one row"""
     if depth > 4:
         raise KeyError("recursion")
-    e2 = {"None": None, "__fns__": env.get("__fns__", {})}
+    e2 = {k_: v_ for k_, v_ in env.items() if k_.startswith("__") or "." in k_}
+    e2["None"] = None
     e2.update(local)
 
     def run(stmts):
@@ -127,6 +151,9 @@ def _mini_call(fn, local, env, depth=0):
                 continue
             if isinstance(s, ast.If):
                 run(s.body if mini_eval(s.test, e2) else s.orelse)
+                continue
+            if isinstance(s, ast.Try) and not s.finalbody:
+                run(s.body)          # the table objects do not make str() / getattr() fail
                 continue
             raise KeyError("statement %s" % type(s).__name__)
     try:
@@ -186,7 +213,21 @@ def check(repo, rep, tier):
             defs = [s for s in m.tree.body if isinstance(s, ast.Assign) and len(s.targets) == 1 and norm(s.targets[0]) == arg.id]
             if len(defs) == 1:
                 arg = defs[0].value
-        if m.name != RT or nested:
+        in_fn = [p_ for p_ in parents(n) if isinstance(p_, ast.FunctionDef)]
+        once_fn = False
+        if m.name == RT and len(in_fn) == 1 and not any(isinstance(p_, (ast.For, ast.While, ast.If, ast.Lambda, ast.Try)) for p_ in parents(n)):
+            # registered inside a helper: it must run exactly once per execution of the module (one unconditional module-level call,
+            # no other caller), the registration itself unconditional; the callback may be a module global the helper binds first
+            fdef = in_fn[0]
+            callers = [c_ for c_ in ast.walk(m.tree) if isinstance(c_, ast.Call) and isinstance(c_.func, ast.Name) and c_.func.id == fdef.name]
+            top = [s_ for s_ in m.tree.body if isinstance(s_, ast.Expr) and isinstance(s_.value, ast.Call) and s_.value in callers]
+            if len(callers) == 1 and len(top) == 1 and fdef in m.tree.body:
+                once_fn = True
+                if isinstance(n.args[0] if n.args else None, ast.Name):
+                    defs = [s_ for s_ in ast.walk(fdef) if isinstance(s_, ast.Assign) and len(s_.targets) == 1 and norm(s_.targets[0]) == n.args[0].id]
+                    if len(defs) == 1:
+                        arg = defs[0].value
+        if (m.name != RT or nested) and not once_fn:
             r1.violation(where, m.name, norm(n), "registration is not a single module-level statement of pysnark.runtime",
                          "register/place")
         elif not (isinstance(arg, ast.Call) and norm(arg.func).endswith("maybe") and len(arg.args) == 1):
@@ -256,6 +297,7 @@ def check(repo, rep, tier):
         r1.violation("%s:1" % am.relpath, AM, "no module-level instance of %s" % eo.name,
                      "the overrider is never installed", "interpose/instance")
     recorded = {}
+    record_expr = {}      # hook -> (expression stored, hook method)
     for hook, (saved_as, meth) in hooks.items():
         fi = eo.methods.get(meth)
         if fi is None:
@@ -282,6 +324,7 @@ def check(repo, rep, tier):
         # what is recorded, and the delegate passes the same arguments through
         st = cfg.stmt[stores[0]]
         recorded[hook] = (norm(st.targets[0]).split(".", 1)[1], norm(st.value))
+        record_expr[hook] = (st.value, fi)
         params = fi.params[1:]
         call = [c for c in calls_in(cfg.stmt[d]) if norm(c.func) == saved_as][0]
         passed = [norm(a.value if isinstance(a, ast.Starred) else a) for a in call.args]
@@ -324,9 +367,25 @@ def check(repo, rep, tier):
         # abstract exit codes: what sys.exit(x) turns into -- None/0 -> status 0; any other object -> non-zero status
         # (falsy non-zero objects such as '' or [] included: CPython prints them and exits with status 1)
         for ec_label, ec in (("None", None), ("0", 0), ("3", 3), ("'msg'", "msg"), ("object", o), ("''", ""), ("[]", [])):
-            for ex_label, ex in (("None", None), ("raised", RuntimeError("x"))):
+            for ex_label, ex in (("None", None), ("raised", RuntimeError("x")), ("raised without arguments", RuntimeError())):
                 env = {"%s.%s" % (inst, ec_attr): ec, "%s.%s" % (inst, ex_attr): ex, "None": None,
-                       "__fns__": {s_.name: s_ for s_ in am.tree.body if isinstance(s_, ast.FunctionDef)}}
+                       "__fns__": {s_.name: s_ for s_ in am.tree.body if isinstance(s_, ast.FunctionDef)},
+                       "__methods__": {k_: v_.node for k_, v_ in eo.methods.items() if isinstance(v_.node, ast.FunctionDef)},
+                       "__inst__": inst, "__cls__": eo.name}
+                # the field holds what the interposed excepthook stores for this exception (the object itself, or something
+                # computed from it - evaluated on the row)
+                if ex is not None and "sys.excepthook" in record_expr:
+                    rx, hf = record_expr["sys.excepthook"]
+                    hp = [a.arg for a in hf.node.args.args][1:]
+                    henv = dict(env)
+                    for nm_, val_ in zip(hp, (type(ex), ex, None)):
+                        henv[nm_] = val_
+                    try:
+                        env["%s.%s" % (inst, ex_attr)] = mini_eval(rx, henv)
+                    except KeyError as e_:
+                        r2.undecided(inner.loc(), inner.fq, norm(rx)[:80], "what the exception hook records is outside the table evaluator: %s" % e_)
+                        rows = None
+                        break
                 runs = False
                 try:
                     for p_ in paths:
